@@ -44,6 +44,8 @@ CORPUS = [
     # loop control in a NON-default arm, none in the default arm: the guard must look at every arm
     ("R9", "fn main() { let n = 0; for k in 0..6 { n += 1; match k { 1 => { continue; }, 4 => { break; }, _ => { println(\"d\", k); } }; println(\"after\", k); } println(n); let i = 0; while i < 6 { i += 1; match i { 2 => { continue; }, 5 => { break; }, _ => {} }; println(\"w\", i); } println(i); }"),
     ("R9", "fn main() { let s = 0; loop { s += 1; match s { 3 => { break; }, _ => { s += 1; } }; println(s); if s > 20 { break; } } println(\"end\", s); for q in 0..4 { match q { 0 | 2 => { continue; }, _ => { println(q); } }; println(\"x\", q); } }"),
+    # loop control inside a CATCH block (none in the try block): the try statement must not be wrapped into a loop
+    ("R9", "fn risky(n: int) -> int { if n % 2 == 0 { throw(\"even\"); } n } fn main() { let s = 0; for k in 0..6 { try { s += risky(k); } catch e { continue; }; println(\"odd\", k); } println(s); let i = 0; while i < 9 { i += 1; try { let r = risky(i + 1); println(r); } catch e { if i > 4 { break; } }; } println(i); loop { try { throw(\"x\"); } catch e { break; }; } println(\"end\"); }"),
     # multiplication by the literals 0 and 1 (the unrolled product must be 0 / the factor), both orders
     ("R17", "fn main() { let x = 7; let a = x * 0; let b = x * 1; let c = 0 * x; let d = 1 * x; let e = x * 2; println(a, b, c, d, e); let y = -3; println(y * 0, y * 1, y * 3); println((x + 1) * 0 == 0, x * 0 < 1); }"),
     ("R10", "fn main() { let x: ?int = none; let o = new { ? }; o.set(\"k\", 1); println(x, o); let n = null; if x == none { println(\"none\"); } }"),
